@@ -9,7 +9,7 @@ open CimbaModel.HashHeap (HTag Item Order HH)
 
 def cmdMask : Cmd → Mask
   | .stop _ _ | .exit _ => mEnd
-  | .prioSet _ _ => mPools
+  | .prioSet _ _ => mPoolsPrio
   | .acquire _ | .preempt _ => mResHeldB
   | .release _ => mResHeld
   | .poolAcquire _ _ | .poolPreempt _ _ => mPoolsHeldB
@@ -42,12 +42,12 @@ theorem timeOk_reprioritize {q q' : EvQ} {h : Nat} {p : Int} (hs : reprioritize 
     have := hq e0 he0
     split <;> exact this
 
-theorem prioSet_fp (w : World) (p q : Pid) (v : Int) : Fp mPools w (execCmd w p (.prioSet q v)).1 := by
+theorem prioSet_fp (w : World) (p q : Pid) (v : Int) : Fp mPoolsPrio w (execCmd w p (.prioSet q v)).1 := by
   simp only [execCmd]
   split
   · exact Fp.refl _ _
   · dsimp only
-    refine Fp.trans (Fp.trans (Same.fp _ (modProc_same w q _ ?_ ?_)) (foldl_fp _ _ ?_ _ _)) (foldl_fp _ _ ?_ _ _)
+    refine Fp.trans (Fp.trans (Fp.mono (by decide) (modProc_fp_prio w q _ ?_ ?_)) (foldl_fp _ _ ?_ _ _)) (foldl_fp _ _ ?_ _ _)
     · intro _; rfl
     · intro _; rfl
     · intro w a
@@ -59,7 +59,7 @@ theorem prioSet_fp (w : World) (p q : Pid) (v : Int) : Fp mPools w (execCmd w p 
         | ok ev' =>
           have := timeOk_reprioritize hr
           dsimp only
-          refine ⟨fun _ => rfl, fun _ => rfl, fun _ => rfl, fun _ => rfl, fun _ => rfl, this.1, this.2, rfl, fun _ _ => rfl, fun _ _ => rfl⟩
+          refine ⟨fun _ => rfl, fun _ => rfl, fun _ => rfl, fun _ => rfl, fun _ => rfl, this.1, this.2, rfl, fun _ _ => rfl, fun _ _ => rfl, fun _ _ => rfl⟩
       | guard g => fp_auto
       | proc _ => exact Fp.refl _ _
       | event _ => exact Fp.refl _ _
